@@ -241,6 +241,8 @@ func runStructural(id string, prog *Program, specs *SpecSet, known *KnownFile) e
 					if ci, isCall := in.(ssa.CallInstruction); isCall {
 						if callee := ci.Common().StaticCallee(); callee != nil {
 							called[funcKey(callee)] = true
+						} else if ci.Common().IsInvoke() {
+							called["invoke "+ci.Common().Method.Name()] = true
 						}
 					}
 				}
